@@ -1,7 +1,7 @@
 SPECIFICATION Spec
 CONSTANTS
   NPaths = 3
-  Contents = {"ClsDoc", "ClsPlain", "ClsField"}
+  Contents = {"ClsDoc", "ClsPlain", "ClsField", "UseFoo"}
   Ops = {"update", "reindex"}
   MaxSteps = 3
   EditDist = 1
